@@ -170,6 +170,9 @@ func (t *TSA) RoundTrip(req *http.Request) (*http.Response, error) {
 		case "noeku":
 			id = pki["tsa-noeku"]
 			signer = id.Key
+		case "short-lived":
+			id = pki["tsa-short"]
+			signer = id.Key
 		case "rejected", "waiting":
 			record()
 			return tsaResp(req, 200, "application/octet-stream", []byte("")), nil
@@ -192,7 +195,7 @@ func (t *TSA) RoundTrip(req *http.Request) (*http.Response, error) {
 		}
 		der, _ := psd.Marshal()
 		entry.SigValue = psd.Content.SignerInfos[0].EncryptedDigest
-		entry.Acceptable = out.Kind == "valid" || out.Kind == "noeku"
+		entry.Acceptable = out.Kind == "valid" || out.Kind == "noeku" || out.Kind == "short-lived"
 		record()
 		return tsaResp(req, 200, "application/octet-stream", []byte(base64.StdEncoding.EncodeToString(der))), nil
 	}
@@ -242,6 +245,10 @@ func (t *TSA) RoundTrip(req *http.Request) (*http.Response, error) {
 		signer = pki["sign-rsa-b"].Key
 	case "noeku":
 		id = pki["tsa-noeku"]
+		signer = id.Key
+	case "short-lived":
+		// a proper authority certificate that is valid now and not for long
+		id = pki["tsa-short"]
 		signer = id.Key
 	}
 	infoDER, err := asn1.Marshal(info)
@@ -319,7 +326,7 @@ func (t *TSA) RoundTrip(req *http.Request) (*http.Response, error) {
 		der = append(der, 0x05, 0x00)
 	}
 	entry.SigValue = psd.Content.SignerInfos[0].EncryptedDigest
-	entry.Acceptable = out.Kind == "valid" || out.Kind == "noeku" || out.Kind == "granted-with-mods" || out.Kind == "double-wrapped"
+	entry.Acceptable = out.Kind == "valid" || out.Kind == "noeku" || out.Kind == "granted-with-mods" || out.Kind == "double-wrapped" || out.Kind == "short-lived"
 	record()
 	return tsaResp(req, 200, "application/timestamp-reply", der), nil
 }
